@@ -54,8 +54,15 @@ def gen_request(rng, kind=None):
     r = {"kind": kind, "ids": ids}
     if kind == "smb1_neg":
         n = rng.randrange(1, 13)
-        dl = [rng.choice(SMB1_DIALECTS + [bytes(rng.choice(b"ABCDEFXYZ 0123.") for _ in range(rng.randrange(1, 12)))])
-              for _ in range(n)]
+        def unknown():
+            k = rng.random()
+            if k < 0.5:
+                return bytes(rng.choice(b"ABCDEFXYZ 0123.") for _ in range(rng.randrange(1, 12)))
+            if k < 0.8:
+                # dialect names are byte strings: anything but NUL, of any length (localised / vendor names, garbage)
+                return bytes(rng.randrange(1, 256) for _ in range(rng.choice([1, 2, 31, 32, 33, rng.randrange(1, 64)])))
+            return bytes(rng.choice(b"abcXYZ019 .") for _ in range(rng.randrange(20, 40))) + bytes(rng.randrange(0x80, 0x100) for _ in range(rng.randrange(1, 6)))
+        dl = [rng.choice(SMB1_DIALECTS + [unknown(), unknown()]) for _ in range(n)]
         rng.shuffle(dl)
         r["dialects"] = dl
         h = smb1_header(0x72, flags=rng.choice([0x18, 0x08, 0x00, 0x10, 0x7F]), flags2=rng.getrandbits(16),
